@@ -742,7 +742,7 @@ impl Scenario for C20 {
         }
     }
     fn describe(&self) -> &'static str {
-        "configure_port, SerialSignBus::try_new and Odk::try_new on a simulated serial device: the full product of prior settings (11 standard baud rates + BaudOther, 4 character sizes, 3 parities, 2 stop bits, 3 flow controls) x 3 entry points x failure at {none, read_settings, set_baud_rate, write_settings, set_timeout}, enumerated by run index; BaudOther values and caller timeouts drawn"
+        "configure_port, SerialSignBus::try_new and Odk::try_new on a simulated serial device: the full product of prior settings (11 standard baud rates + BaudOther, 4 character sizes, 3 parities, 2 stop bits, 3 flow controls) x 3 entry points x failure at {none, read_settings, set_baud_rate, write_settings, set_timeout}, enumerated by run index; BaudOther values and caller timeouts drawn; a quarter of the refusals are transient (the call refuses once or twice, then accepts)"
     }
     fn run(&self, cx: &Cx) -> Result<(), Violation> {
         let mut i = cx.index() % Self::PRODUCT;
@@ -778,6 +778,12 @@ impl Scenario for C20 {
         dev.fail = fail;
         dev.fail_kind = cx.draw(crate::port::ERR_KINDS.len() as u64) as usize;
         let want_kind = crate::port::ERR_KINDS[dev.fail_kind];
+        // a refusal is permanent mostly, but some devices refuse once or twice and then accept
+        let transient = fail != CfgFail::None && cx.chance(1, 4);
+        if transient {
+            dev.fail_budget.set(1 + cx.draw(2) as u32);
+            cx.probe("transient_refusal");
+        }
         dev.timeout = Duration::from_millis(*cx.pick(&[1u64, 0, 5000, 10000, 77]));
         let prior_timeout = dev.timeout;
         // the caller's value: whole milliseconds mostly, but also sub-millisecond, odd and huge ones
@@ -790,7 +796,7 @@ impl Scenario for C20 {
             5 => Duration::from_nanos(1 + cx.draw(5_000_000_000)),
             _ => Duration::from_millis(*cx.pick(&[5000u64, 1, 250, 10_000, 60_000, 0])),
         };
-        cx.event("case", &(prior, entry, fail, caller_timeout.as_nanos()));
+        cx.event("case", &(prior, entry, fail, caller_timeout.as_nanos(), dev.fail_budget.get()));
         cx.note(|| format!("prior {prior:?}, entry {}, failure at {fail:?}", ["configure_port", "SerialSignBus::try_new", "Odk::try_new"][entry as usize]));
         cx.set_nontrivial();
         cx.probe(&format!("entry{entry}:{fail:?}"));
@@ -855,6 +861,28 @@ impl Scenario for C20 {
             }
             if !dev_after.calls.iter().any(|c| matches!(c, CfgCall::SetTimeout(_))) {
                 cx.fail("C20/timeout-not-applied", format!("entry {entry}: set_timeout was never called"));
+                return cx.verdict();
+            }
+        } else if transient {
+            // the port refused once or twice and accepts afterwards: an error is fine, and so is a constructor that
+            // tried again -- but an object handed out must sit on a fully configured port
+            if ok {
+                cx.probe("transient_refusal_survived");
+                if !dev_after.settings.is_19200_8n1_noflow() || dev_after.timeout != want_timeout || !dev_after.calls.iter().any(|c| matches!(c, CfgCall::SetTimeout(_))) {
+                    cx.fail(
+                        "C20/half-configured-after-transient-refusal",
+                        format!(
+                            "entry {entry}: the port refused at {fail:?} {} time(s) and accepted afterwards; the constructor returned Ok with the port at {:?}, timeout {:?} (wanted 19200 8N1 no flow control, {:?})",
+                            if dev_after.fail_budget.get() == 0 { "its budgeted" } else { "some" },
+                            dev_after.settings,
+                            dev_after.timeout,
+                            want_timeout
+                        ),
+                    );
+                    return cx.verdict();
+                }
+            } else if err != Some(want_kind) {
+                cx.fail("C20/wrong-error", format!("entry {entry}: the port refused at {fail:?} ({want_kind:?}, transient) but the error returned is {err:?}"));
                 return cx.verdict();
             }
         } else {
